@@ -22,18 +22,22 @@ META = {
             "reindex_consistent and reindex_outline (the renaming of Reindex - six orders, mirrored patterns - maps the pattern outline onto the triangle's subdivided "
             "sides); new_indices_once_edges/_interior (every new vertex index written exactly once); subdivided_outlines_balance and subdivide_balances (for any closed "
             "oriented soup and any non-negative edge divisions the ported Subdivide returns a closed oriented soup, given split_ok of the patterns used); simplify_slots_constant and simplify_counts (for every state, fuel, verdict and "
-            "operation sequence the triangle count never grows); collapse_tri_kills_tri; dedupe_adds_two; prop_slots_disjoint; tolerance facts "
+            "operation sequence the triangle count never grows); collapse_tri_dead_stay_dead (pairing invariant pair_inv); swap_edge_inv_partial / collapse_edge2_inv_partial / "
+            "simplify_counts_monotone_partial (invariant preserved, removed faces stay removed, count non-increasing from any invariant state - under executable guards "
+            "that are evaluated on every traced operation); general Subdivide model with marked quads and keepInterior: keep_interior_nonneg, new_indices_once_edges_q/"
+            "_interior_q, face_outlines_balance, valid_tangents_implies_quads_valid, reindex_outline_quad, subdivide_q_balances, subdivide_q_restricts; "
+            "collapse_tri_kills_tri; dedupe_adds_two; prop_slots_disjoint; tolerance facts "
             "(set_tolerance_reports_max, tolerance_ge_epsilon, simplify_tolerance_unchanged, set_epsilon_floor). BOUNDED (exact rational geometry and definedness): "
             "tiles_ok_sound + partition_tiles_bounded (n0<=24, eps=0), partition_quad_tiles_bounded (<=10), get_partition_tiles_bounded, float_pattern_tiles_bounded "
             "(n0<=12: binary64 pattern tiles within 2^-44), uniform_n_squared (n<=64), reindex_two_triangles_bounded (<=5), split_ok_sweep (n0<=24). "
             "Tie: every swept key is run through /repo's Partition (fresh and cached) and compared bit for bit with the extracted model; the extracted checker "
             "runs on the implementation's arrays; Reindex on random calls + two-triangle composition; Impl::Subdivide with hashed edge divisions against the "
-            "ported Subdivide (triVerts, NumVert, vertBary owners); Impl::CollapseEdge2/SwapEdge random sequences against the ported bookkeeping (complete "
+            "ported Subdivide (triVerts, NumVert, vertBary owners), and with marked quads (SmoothOut meshes) and keepInterior against the general model; Impl::CollapseEdge2/SwapEdge random sequences against the ported bookkeeping (complete "
             "halfedge state after every operation); Refine/RefineToLength/RefineToTolerance/Simplify/SetTolerance end to end (n^2 counts, model-predicted "
             "counts, retained vertices as bit patterns, volume/area, distance to the input surface, references, Euler characteristic, pairing, tolerance).",
     "note": "Trusted: Coq kernel + vm_compute + PrimFloat (hardware binary64), extraction (ExtrOcamlBasic, ExtrOCamlFloats, ExtrOCamlInt63), the C++ harness. "
             "Not proved: that the pattern functions return for sizes beyond the sweeps (definedness depends on double-precision values) and split_ok beyond n0<=24; "
-            "exact geometry (positive areas, interior points) beyond the sweeps; 'dead triangles stay dead' needs the pairing invariant (C01); surface displacement <= t (decided on outputs: volume/area "
+            "exact geometry (positive areas, interior points) beyond the sweeps; the guards of the CollapseEdge2/SwapEdge invariant theorems are not derived from the pairing invariant (vertex consistency would be needed); surface displacement <= t (decided on outputs: volume/area "
             "within 1e-10 relative, vertex-to-input-surface distance <= 2^-24 by a double-precision brute force); 'new vertex lies on the interpolated surface' "
             "with tangents is not checked (only: original vertices do not move, topology, counts).",
 }
@@ -241,6 +245,49 @@ def subdivides(cx, exe, drv):
     return n, mism
 
 
+def subdivides_q(cx, exe, drvq):
+    """Impl::Subdivide with marked quads (SmoothOut meshes) and keepInterior against the general ported model."""
+    rng = random.Random(cx.seed * 173 + 9)
+    lines = ["Q %d %d %d %d %d %d" % (i, rng.choice([0, 1, 2, 3, 4, 5, 6, 7]), rng.randrange(1, 2 ** 31), rng.choice([2, 3, 4, 6, 9]),
+                                       rng.randrange(2), rng.choice([0, 1, 1, 2]))
+             for i in range(cx.pick(250, 6000))]
+    kl = lambda l: l.split()[1] if l.startswith("Q ") else None
+    out_impl, crashes = vp.run_cases(exe, lines, kl, kl, timeout=cx.pick(300, 1500))
+    for cl, rc, err in crashes:
+        cx.violation("subdivide-crash", "Impl::Subdivide crashed or hung (rc=%s): %s" % (rc, err[-200:]), {"case": cl})
+    impl = {kl(l): l for l in out_impl.splitlines() if l.startswith("Q ")}
+    feed = [l for l in impl.values() if " SKIP" not in l]
+    out_model = run_parallel(drvq, feed, 8, timeout=cx.pick(600, 1700))
+    model = {kl(l): l for l in out_model.splitlines() if l.startswith("Q ")}
+    n, mism, unbalanced, nq, nk = 0, 0, 0, 0, 0
+    for k, l in impl.items():
+        if " SKIP" in l:
+            continue
+        n += 1
+        t = l.split()
+        nq += int(int(t[t.index("M") + 1]) > 0)
+        nk += int(t[3] == "1")
+        a = l[l.index(" OUT "):].split()
+        m = model.get(k, "")
+        ma = m[m.index(" OUT "):].split() if " OUT " in m else ["?"]
+        if a == ma:
+            continue
+        mism += 1
+        v = list(map(int, a[2:2 + 3 * int(a[1])]))
+        tris = [tuple(v[i:i + 3]) for i in range(0, len(v), 3)]
+        nv2 = int(a[a.index("NV2") + 1])
+        if not coef_equal(tris, []) or set(v) != set(range(nv2)):
+            unbalanced += 1
+            if unbalanced <= 2:
+                cx.violation("subdivide-unbalanced",
+                             "Impl::Subdivide (marked quads / keepInterior) returned a soup that is not closed/oriented or leaves a vertex unused (case %s)" % k,
+                             {"case": [x for x in lines if kl(x) == k][0], "impl": l[:3000], "model": m[:3000]})
+        elif mism - unbalanced <= 2:
+            cx.broke("corr:C19/subdivide_q#Q %s" % k, "general ported Subdivide and Impl::Subdivide differ: impl=%s model=%s" % (" ".join(a)[:300], " ".join(ma)[:300]))
+    cx.cov["subdivide_q"] = {"cases": n, "matches": n - mism, "with_marked_quads": nq, "with_keepInterior": nk}
+    return n, mism
+
+
 def edgeops(cx, exe, drv2):
     """Impl::CollapseEdge2 (short merger) / Impl::SwapEdge, random sequences, against the ported bookkeeping."""
     rng = random.Random(cx.seed * 211 + 5)
@@ -252,6 +299,7 @@ def edgeops(cx, exe, drv2):
     out_model = run_parallel(drv2, steps, 8, timeout=cx.pick(600, 1700))
     verdict = {l.split()[1]: l for l in out_model.splitlines() if l.startswith("X ")}
     grew, diff = 0, 0
+    inv_stats = {"states_with_pair_inv": 0, "guard_true": 0, "guard_false": 0, "inv_lost_though_guard_true": 0, "dead_resurrected": 0}
     for l in steps:
         t = l.split()
         k = t[1]
@@ -262,12 +310,20 @@ def edgeops(cx, exe, drv2):
                 cx.violation("simplify-grows", "a CollapseEdge2/SwapEdge sequence increased the number of live triangles %d -> %d" % (live0, live),
                              {"case": [x for x in lines if kl(x) == k.split(".")[0]][0], "step": k})
         v = verdict.get(k, "")
+        vt = v.split()
+        if " OK " in v and "INV0" in vt:
+            inv0, inv1, g = vt[vt.index("INV0") + 1], vt[vt.index("INV1") + 1], vt[vt.index("GUARD") + 1]
+            inv_stats["states_with_pair_inv"] += int(inv0 == "1")
+            inv_stats["guard_true" if g == "1" else "guard_false"] += 1
+            if inv0 == "1" and g == "1" and inv1 != "1":
+                inv_stats["inv_lost_though_guard_true"] += 1
+                cx.broke("thm:C19/collapse_edge2_inv#%s" % k, "pair_inv and the guard hold before the operation but pair_inv fails after it on the implementation's state")
         if " OK " not in v:
             diff += 1
             if diff <= 2 and live <= live0:
                 cx.broke("corr:C19/edge_ops#%s" % k, "ported CollapseEdge2/SwapEdge and the implementation differ: %s" % v[:200])
     cx.cov["edge_ops"] = {"sequences": len(lines), "operations_compared": len(steps), "matches": len(steps) - diff,
-                          "sequences_crashed_or_hung": len(crashes),
+                          "sequences_crashed_or_hung": len(crashes), "invariant": inv_stats,
                           "note": "random operation sequences ignore SimplifyTopology2's preconditions; a crash there is recorded, not reported"}
     return len(steps), diff
 
@@ -441,7 +497,7 @@ def run(cx):
         "exact-geometry theorems (areas, positions) are exhaustive only up to the bounds in their statements; Refine(n) n<=64; two-triangle Reindex composition<=5",
         "the double-precision rounding decisions are evaluated by Coq's PrimFloat primitives (hardware binary64) - listed by Print Assumptions",
         "subdivide_balances needs split_ok for the patterns used (swept for n0<=24) and non-negative vertex ids / edge divisions",
-        "simplify_counts covers the operation sequences CollapseEdge2/SwapEdge (any verdicts); the geometric reject block and CleanupTopology/DedupeEdges are not modelled (DedupeEdge's growth is: +2 triangles)",
+        "simplify_counts covers the operation sequences CollapseEdge2/SwapEdge (any verdicts) from an all-live state; the per-operation monotone version and invariant preservation carry executable guards (evaluated on the traces); the geometric reject block and CleanupTopology/DedupeEdges are not modelled (DedupeEdge's growth is: +2 triangles)",
         "tolerance wrappers are modelled over an abstract total order (Z) standing for non-NaN doubles",
         "surface displacement of Simplify and 'new vertices lie on the interpolated surface' are checked on outputs only (volume/area rel 1e-10, vertex-to-surface distance 2^-24)",
     ]
@@ -452,8 +508,10 @@ def run(cx):
     cx.broken = [(n, d) for n, d in cx.broken if not (n == "coq:axioms" and d.endswith("allow-list: Axioms"))]
     cx.cov["axioms_reported_by_Print_Assumptions"] = [a for a in cx.cov.get("axioms_reported_by_Print_Assumptions", []) if a != "Axioms"]
     cx.cov["trusted_base"] = [t for t in cx.cov.get("trusted_base", []) if t != "axiom: Axioms"]
-    mls = vp.coq_extract("ExtractC19", ["c19_model.ml", "c19_simplify.ml"])
+    mls = vp.coq_extract("ExtractC19", ["c19_model.ml", "c19_simplify.ml", "c19_subq.ml"])
     drv2 = vp.ocaml_build("c19_simplify_driver", [mls[1], os.path.join(vp.ROOT, "extract/c19_simplify_driver.ml")])
+    drvq = vp.ocaml_build("c19_subq_driver", [mls[2], os.path.join(vp.ROOT, "extract/c19_subq_driver.ml")],
+                          packages=["coq-core.kernel"], flags=["-rectypes", "-thread"])
     mls = mls[:1]
     drv = vp.ocaml_build("c19_driver", mls + [os.path.join(vp.ROOT, "extract/c19_driver.ml")],
                          packages=["coq-core.kernel"], flags=["-rectypes", "-thread"])
@@ -464,15 +522,17 @@ def run(cx):
     cx.log("reindex: %d calls, %d mismatches" % (n2, mism2))
     n4, mism4 = subdivides(cx, exe, drv)
     cx.log("subdivide: %d cases, %d mismatches" % (n4, mism4))
+    n6, mism6 = subdivides_q(cx, exe, drvq)
+    cx.log("subdivide (quads/keepInterior): %d cases, %d mismatches" % (n6, mism6))
     n5, mism5 = edgeops(cx, exe, drv2)
     cx.log("edge ops: %d operations, %d mismatches" % (n5, mism5))
     budget = cx.pick(3000, 40000)
-    if mism1 or mism2 or mism4 or mism5 or cx.broken:
+    if mism1 or mism2 or mism4 or mism5 or mism6 or cx.broken:
         budget *= 3      # search: the tie or a proof broke, look harder for a concrete failing input
     n3, nt3 = e2e(cx, exe, drv, budget)
-    cx.cov.update({"evaluations": n1 + n2 + n3 + n4 + n5, "distinct_nontrivial": nt1 + nt3,
+    cx.cov.update({"evaluations": n1 + n2 + n3 + n4 + n5 + n6, "distinct_nontrivial": nt1 + nt3,
                    "rule": "partition keys: every key of the proved range + random unsorted/rotated keys, non-trivial = at least one side divided; "
                            "end-to-end: distinct (family, shape, parameters, counts) whose operation changed the triangle count (or lowered the tolerance)",
                    "distribution": cx.cov["e2e"]["distribution"],
-                   "correspondence_mismatches": mism1 + mism2 + mism4 + mism5,
-                   "traces_validated_against_impl": (n1 - mism1) + (n2 - mism2) + (n4 - mism4) + (n5 - mism5)})
+                   "correspondence_mismatches": mism1 + mism2 + mism4 + mism5 + mism6,
+                   "traces_validated_against_impl": (n1 - mism1) + (n2 - mism2) + (n4 - mism4) + (n5 - mism5) + (n6 - mism6)})
